@@ -120,6 +120,10 @@ pub enum Op {
     BadPostChangeDispute { m: u8, into: u8, picks: Vec<u16>, verified: bool, extend_instead: bool, rel: i16 },
     /// ProveCommitSectorsNI (non-interactive PoRep): n sectors with the NI proof type of size `kind` (None = the miner's own size)
     CommitNI { m: u8, n: u8, kind: Option<u8>, life_days: u16, deadline: u8, bad_proof: bool },
+    /// macro: onboard a short-lived sector holding two or three claims whose terms end soon after it, keep it proven into
+    /// its last 30 days, then extend it with a declaration that drops some claims and aims `rel` epochs around the
+    /// earliest claim term end
+    EolDropCycle { m: u8, sizes: Vec<u8>, term_extra_days: u16, mode: u8, rel: i8, add_days: u16 },
 }
 
 #[derive(Clone, Debug, Serialize, Deserialize)]
@@ -528,6 +532,11 @@ impl<'a> Sys<'a> {
                     self.stats.label("proven");
                     self.stats.label("bulk_onboarded");
                 }
+            }
+            Op::EolDropCycle { m, sizes, term_extra_days, mode, rel, add_days } => {
+                self.step(i, &Op::OnboardV { m: *m, sizes: sizes.clone(), life_days: 0, term_extra_days: 31 + *term_extra_days % 60, exp_mode: 0 })?;
+                // the sector just onboarded is the miner's newest sector with verified weight: pick = last
+                self.step(i, &Op::ExtendV { m: *m, pick: 65535, add_days: *add_days, mode: *mode, target: 2, rel: *rel })?;
             }
             Op::CommitNI { m, n: cnt, kind, life_days, deadline, bad_proof } => {
                 let mi_ = *m as usize % n;
@@ -1474,7 +1483,7 @@ pub fn who_strategy() -> impl Strategy<Value = Who> {
 pub fn op_strategy_w(bulk: u32, long: u32, dispute: u32, verified: u32, benef: u32) -> impl Strategy<Value = Op> {
     let snap = if benef == 4 { 40 } else { 10 };
     // moving a sector into the last 30 days of its life costs >= 150 days of ticks
-    let eol = if long >= 6 { 6 } else if verified >= 20 { 3 } else { 1 };
+    let eol = if long >= 6 { 6 } else { 1 };
     prop_oneof![
         2000 => op_strategy(),
         25 => (0u8..4, 0u8..3, prop_oneof![3 => Just(None), 1 => (0u8..3).prop_map(Some)], 0u16..300, 0u8..40, prop_oneof![12 => Just(false), 1 => Just(true)]).prop_map(|(m, n, kind, life_days, deadline, bad_proof)| Op::CommitNI { m, n, kind, life_days, deadline, bad_proof }),
@@ -1493,6 +1502,7 @@ pub fn op_strategy_w(bulk: u32, long: u32, dispute: u32, verified: u32, benef: u
         verified * 4 => (0u8..4, any::<u16>(), 0u16..300, prop_oneof![3 => Just(0u8), 2 => 1u8..8], prop_oneof![8 => Just(0u8), 6 => Just(1u8), eol => Just(2u8)], -2i8..3).prop_map(|(m, pick, add_days, mode, target, rel)| Op::ExtendV { m, pick, add_days, mode, target, rel }),
         verified => (any::<u16>(), 0u16..800, prop_oneof![5 => Just(true), 1 => Just(false)]).prop_map(|(pick, add_days, by_client)| Op::ExtendClaim { pick, add_days, by_client }),
         verified => (0u8..4, any::<bool>()).prop_map(|(m, claims)| Op::RemoveExpired { m, claims }),
+        (verified / 10).max(1) => (0u8..4, proptest::collection::vec(1u8..4, 2..4), 0u16..60, prop_oneof![4 => Just(2u8), 1 => Just(1u8), 1 => Just(0u8)], -2i8..3, 0u16..300).prop_map(|(m, sizes, term_extra_days, mode, rel, add_days)| Op::EolDropCycle { m, sizes, term_extra_days, mode, rel, add_days }),
         (if long >= 6 { long / 2 } else { 1 }) => (0u8..4, prop_oneof![4 => Just(true), 1 => Just(false)], -1i8..3).prop_map(move |(m, post, rel)| if long >= 6 { Op::ToExpiry { m, post, rel } } else { Op::Advance(Adv::Epochs(rel.unsigned_abs() as u16)) }),
         long.max(1) => (0u8..4, if long >= 6 { prop_oneof![4 => 1u16..6, 2 => 41u16..45, 1 => 178u16..186].boxed() } else if long >= 1 { prop_oneof![6 => 1u16..6, 1 => 41u16..45].boxed() } else { (1u16..3).boxed() }, any::<bool>()).prop_map(|(m, days, post)| Op::Long { m, days, post }),
     ]
